@@ -233,6 +233,20 @@ func run(c *harness.Ctx, i int) {
 		defer b.s3.Close()
 	}
 	objs, ids := genStore(rng, uncompressed, strings.HasPrefix(kind, "local"))
+	if kind == "s3" && rng.Intn(2) == 0 {
+		// objects whose names look almost like chunks: directory is a shorter prefix of the ID, upper-case hex digits
+		var id desync.ChunkID
+		rng.Read(id[:])
+		sid := id.String()
+		ext := ".cacnk"
+		if uncompressed {
+			ext = ""
+		}
+		objs = append(objs, object{key: sid[:1+rng.Intn(3)] + "/" + sid + ext, data: []byte("not in its place"), category: "junk"})
+		rng.Read(id[:])
+		up := strings.ToUpper(id.String())
+		objs = append(objs, object{key: up[:4] + "/" + up + ext, data: []byte("upper case"), category: "junk"})
+	}
 	if kind == "sftp" && rng.Intn(2) == 0 {
 		// what an interrupted upload over SFTP leaves behind: the chunk's file name with a random number appended
 		for k := 0; k < 1+rng.Intn(2); k++ {
@@ -369,6 +383,34 @@ func run(c *harness.Ctx, i int) {
 				}
 			}()
 			u, _ := url.Parse("sftp://localhost" + b.dir)
+			// an upload that was cut off by a dying connection leaves whatever the writer itself uses as its
+			// temporary name; a later prune (new connection) has to clean that up
+			interrupted := ""
+			if os.Getenv("SHIM_SFTP_FAULT") == "" && rng.Intn(3) == 0 {
+				os.Setenv("SHIM_SFTP_FAULT", "die@1")
+				os.Setenv("SHIM_SFTP_FAULT_LOG", flog+".upload")
+				if us, e := desync.NewSFTPStore(u, desync.StoreOptions{Uncompressed: uncompressed, N: 1}); e == nil {
+					data := dsu.MakeBlob(rng, "random", 3000, dsu.Sizes{Min: 64, Avg: 128, Max: 256})
+					if serr := us.StoreChunk(desync.NewChunk(data)); serr != nil {
+						iid := dsu.Sum(data)
+						interrupted = iid.String()
+					}
+					us.Close()
+				}
+				os.Unsetenv("SHIM_SFTP_FAULT")
+			}
+			defer func() {
+				if interrupted == "" || err != nil {
+					return
+				}
+				for k := range b.list() {
+					if strings.Contains(k, interrupted) {
+						c.Violation("prune-left-temp", "an SFTP upload of chunk %s was cut off by a dying connection; prune reported success and %q is still in the store", interrupted[:10], k)
+						return
+					}
+				}
+				c.Count("sftp_interrupted_uploads_cleaned", 1)
+			}()
 			s, e := desync.NewSFTPStore(u, opt)
 			if e != nil {
 				c.Skip("sftp shim: %v", e)
